@@ -677,7 +677,6 @@ Proof.
     pose proof (is_le_flags e (sub_flags p) (sub_flags_length p)) as Hle.
     destruct (enc_len_field e _ (len (enc_body e p)) Hle ltac:(pose proof (len_nonneg _ (enc_body e p)); lia)) as (b2 & b3 & E23 & Esl).
     rewrite E23. cbn [app sub_loop]. cbv zeta. rewrite Esl.
-    rewrite <- app_assoc.
     rewrite shorter_app_false by lia.
     pose proof (parse_sub_enc e p (flat_map (enc_sub e) t) Hp Hl) as Hps.
     destruct (parse_sub (sub_id p) (flags_octet e (sub_flags p)) (len (enc_body e p)) (enc_body e p ++ flat_map (enc_sub e) t)) as [r0 c0].
@@ -685,7 +684,8 @@ Proof.
     assert (Ec : (len (enc_body e p) =? 0) && is_data (pcanon p) = false).
     { destruct (is_data (pcanon p)) eqn:Ed; [|apply andb_false_r].
       pose proof (is_data_len e p Hp Ed). destruct (Z.eqb_spec (len (enc_body e p)) 0); [lia|reflexivity]. }
-    rewrite Ec. unfold len at 2. rewrite Nat2Z.id, skipn_app_exact by reflexivity.
+    rewrite Ec. replace (Z.to_nat (len (enc_body e p))) with (length (enc_body e p)) by (unfold len; lia).
+    rewrite skipn_app_exact by reflexivity.
     specialize (IH fuel Hwt Hft ltac:(lia)).
     destruct (sub_loop fuel (flat_map (enc_sub e) t)) as [r1 c1]. cbn [fst] in IH. subst r1. reflexivity.
 Qed.
